@@ -50,21 +50,21 @@ CLAIMED["C07"] = dict(
 
 CLAIMED["C19"] = dict(
    text="Differential check: the real evaluateRewriteRules/ruleMappingForLookup/catchAllSpecificity run on symbolic compiled rule lists next to a short reference implementation of the documented precedence (first explicit Local match, else most specific catch-all, declaration order on ties, interface/CIDR/family must match); z3 proves rule, mode and family equal on every path. The four appliers are checked against the replace/append/empty-list table, and construction-time validation against a concrete pool of valid/invalid rule pairs.",
-   note="Bounds: 2 rules quick / 3 thorough (+4 catch-all-only), interface names any 2 bytes, CIDR any /8, flags and modes symbolic. One deviation is a listed known finding (CIDR-only vs global when the lookup has an interface name; pinned by the repo's own test). Trusted: encoder, z3, net.IPNet.Contains/IP.String as real code. Outside: text validation beyond the pool.",
+   note="verifC19Compile: end-to-end differential over 2592 concrete rule sets through the real newAddressRewriteMapper + findExternalIPs (families, Networks, empty rules, Local pins). Bounds: 2 rules quick / 3 thorough (+4 catch-all-only), interface names any 2 bytes, CIDR any /8, flags and modes symbolic. One deviation is a listed known finding (CIDR-only vs global when the lookup has an interface name; pinned by the repo's own test). Trusted: encoder, z3, net.IPNet.Contains/IP.String as real code. Outside: text validation beyond the pool.",
    ref="DESIGN.md §5 C19")
 
 CLAIMED["C16"] = dict(
    text="(a) every ICE STUN attribute codec (PRIORITY, ICE-CONTROLLING/CONTROLLED, AttrControl, USE-CANDIDATE, nomination, DTLS-in-STUN and ACK) is proved to round-trip for all values through the real stun.Message.Add/Get and to accept exactly the documented sizes for every attribute length 0..20; (b) Equal/DeepEqual reflexivity, symmetry and DeepEqual=>Equal over pairs of candidates built by the real constructors with symbolic port/component/priority/TCP type/extensions; (c) the five tokenizers on every byte string up to the bound (full UTF-8 decoding modelled symbolically) from every offset; extension marshal/unmarshal round trip; (d) Marshal->UnmarshalCandidate round trip with numeric fields represented by their decimal digits so that %d is exact; arbitrary tails after valid prefixes never panic and accepted text re-marshals to an Equal candidate.",
-   note="Bounds: strings <= 4 bytes quick / 6 thorough; extensions of 1..2 bytes; address pool of 5 (IPv4, IPv6, IPv4-mapped, mDNS); one numeric field at a time over its digit counts. Two defects found by this check were repaired (related address with port 0 dropped by Marshal; DeepEqual irreflexive with a TCP type). Trusted: encoder, z3, fmt model for %s/%d/%v, CRC uninterpreted. Outside: longer strings, netip.ParseAddr on fully symbolic text.",
+   note="verifC16ExtensionEquality: DeepEqual on extension lists = multiset equality (repeated extension names included). Bounds: strings <= 4 bytes quick / 6 thorough; extensions of 1..2 bytes; address pool of 5 (IPv4, IPv6, IPv4-mapped, mDNS); one numeric field at a time over its digit counts. Two defects found by this check were repaired (related address with port 0 dropped by Marshal; DeepEqual irreflexive with a TCP type). Trusted: encoder, z3, fmt model for %s/%d/%v, CRC uninterpreted. Outside: longer strings, netip.ParseAddr on fully symbolic text.",
    ref="DESIGN.md §5 C16")
 
 CLAIMED["C12"] = dict(
    text="Sequential operation sequences (GetConn, write through a handle, inbound datagram dispatched by the real connWorker, RemoveConnByUfrag, handle Close, mux Close) are executed on the real UDPMuxDefault/udpMuxedConn/sharedPacketConn over a fake socket and compared, after every step, with a reference routing table written in the harness: destination = last writer of the canonical source address, else (first-contact STUN) the connection registered for the USERNAME prefix and the source's family, else drop; byte-identical payload, true source, per-connection FIFO, canonical keys, address map and per-connection lists agree, closed/removed connections receive nothing. USERNAME bytes and payloads are symbolic.",
-   note="Bounds: one GetConn + 3 operations quick / 4 thorough, 2 ufrags, 3-4 addresses incl. the IPv4-mapped form. Concurrency is OUTSIDE: goroutines take turns at operation boundaries (one legal schedule per path). Known finding listed (write after RemoveConnByUfrag re-binds the address). Leftover table entries of a closed mux are not counted (nothing is dispatched). Trusted: encoder, z3, fake socket, sync.Pool free-list model.",
+   note="verifC12DualStack: a mux on the unspecified address serving one ufrag on both IP families retires BOTH connections on RemoveConnByUfrag / handle close / mux close. Bounds: one GetConn + 3 operations quick / 4 thorough, 2 ufrags, 3-4 addresses incl. the IPv4-mapped form. Concurrency is OUTSIDE: goroutines take turns at operation boundaries (one legal schedule per path). Known finding listed (write after RemoveConnByUfrag re-binds the address). Leftover table entries of a closed mux are not counted (nothing is dispatched). Trusted: encoder, z3, fake socket, sync.Pool free-list model.",
    ref="DESIGN.md §5 C12")
 CLAIMED["C13"] = dict(
    text="(a) reference counting: 2..3 handles from the real GetConn over one udpMuxedConn under every sequence of 4-6 Close/WriteTo/ReadFrom operations: the underlying connection is closed exactly when the last handle closes, repeated Close is idempotent, a closed handle's I/O fails with ErrClosedPipe, siblings stay usable; (b) the write-abort protocol (startWriteContext/finishWrite/abortWrite on the lock-free state word) at method-atomic granularity under every sequence of 4-6 calls with SetWriteDeadline succeeding or failing: no-op abort without writers, deadline cleared by the last writer, flags cleared on failed arming, exact in-flight count, no entry while an abort is pending, socket usable afterwards.",
-   note="(c) verifC13AbortInterleaved explores the fine-grained interleavings the property's rationale stresses: a context-bound write blocked in the socket, a concurrent plain write and the cancellation, with every atomic operation on the state word a scheduling point, all schedules with <= 2 preemptions (264k schedules): everybody returns, state word 0, deadline cleared, later writes succeed. Still outside: more than two writers, context bounds above 2/3, the TCP mux flavour. Trusted: encoder, scheduler model (switches at synchronisation operations), context package as real code, fake socket whose expired deadline fails current and future writes.",
+   note="(a') verifC13PendingRead (schedule exploration): closing a handle fails that handle's own PENDING read, with or without a read deadline armed, and leaves the sibling's pending read alone. (c) verifC13AbortInterleaved explores the fine-grained interleavings the property's rationale stresses: a context-bound write blocked in the socket, a concurrent plain write and the cancellation, with every atomic operation on the state word a scheduling point, all schedules with <= 2 preemptions (264k schedules): everybody returns, state word 0, deadline cleared, later writes succeed. Still outside: more than two writers, context bounds above 2/3, the TCP mux flavour. Trusted: encoder, scheduler model (switches at synchronisation operations), context package as real code, fake socket whose expired deadline fails current and future writes.",
    ref="DESIGN.md §5 C13")
 
 CLAIMED["C18"] = dict(
@@ -74,12 +74,12 @@ CLAIMED["C18"] = dict(
 
 CLAIMED["C09"] = dict(
    text="Sequential fault-path accounting on the real gatherer goroutine bodies: gatherCandidatesSrflx (listen, STUN exchange through the real GetXORMappedAddr, candidate creation, addCandidate), gatherCandidatesRelay over UDP (listen, TURN client factory, Listen, Allocate, location filter) and addRelayCandidates/createRelayCandidate, each run against recording fakes under every combination of injected failures incl. cancellation or agent close while the exchange is in flight: every resource acquired is closed or adopted by a started candidate, nothing is released twice, and candidate removal releases adopted resources exactly once. The host gatherer's accounting is part of C18(d), duplicate-candidate closing of C06.",
-   note="SEQUENTIAL fault paths only (claimed as such): goroutine bodies run to completion when spawned, helpers are scheduled cooperatively. Two leaks found here were repaired (fix 94392a5, 9897c5d); one finding stays listed (append-mode relay candidates share one allocation). Outside: timing of Restart/Close against in-flight exchanges under real concurrency, DTLS/TLS/TCP TURN branches, the open-socket tally after Close.",
+   note="Relay teardown is also run with the allocation's Close reporting an error. SEQUENTIAL fault paths only (claimed as such): goroutine bodies run to completion when spawned, helpers are scheduled cooperatively. Two leaks found here were repaired (fix 94392a5, 9897c5d); one finding stays listed (append-mode relay candidates share one allocation). Outside: timing of Restart/Close against in-flight exchanges under real concurrency, DTLS/TLS/TCP TURN branches, the open-socket tally after Close.",
    ref="DESIGN.md §5 C09")
 
 CLAIMED["C15"] = dict(
    text="Admission and routing of one accepted TCP connection through the real TCPMuxDefault.handleConn / readStreamingPacket / stun.Message.Decode / getConn / createConn / tcpPacketConn.AddConn / startReading / readFromContext / WriteTo over fake listener and connection: closed iff the first frame is missing, truncated, oversized, undecodable, not Binding or USERNAME-less (incl. an arbitrary symbolic 20-byte header); otherwise attached to exactly the packet conn of (ufrag, peer family, local IP), provisional with expiry armed for unknown ufrags; first message and later packets delivered in order with the peer address; replies go back over the same connection framed; provisional conns expire; Close closes listener and connections.",
-   note="SEQUENTIAL part only: accept loop, readers and close watchers run as cooperative coroutines (one legal schedule); AfterFunc fires only when the harness fires it; segmentations with <= 2 partial reads. Outside: expiry timing, concurrent accepts/removals, Close waiting for goroutines, goroutine census.",
+   note="verifC15TwoPeers: two connections for one unregistered ufrag share a provisional conn whose expiry stays armed unless the agent claims the ufrag (time.AfterFunc Stop/Reset are modelled). SEQUENTIAL part only: accept loop, readers and close watchers run as cooperative coroutines (one legal schedule); AfterFunc fires only when the harness fires it; segmentations with <= 2 partial reads. Outside: expiry timing, concurrent accepts/removals, Close waiting for goroutines, goroutine census.",
    ref="DESIGN.md §5 C15")
 
 CLAIMED["C10"] = dict(
@@ -88,12 +88,12 @@ CLAIMED["C10"] = dict(
    ref="DESIGN.md §5 C10", tech="sched")
 
 CLAIMED["C11"] = dict(
-   text="Schedule exploration over the REAL handlerNotifier including the drainer goroutines it spawns (two producers, a handler that yields inside, all three callback streams, context bound 2): the handler never runs concurrently with itself, every event is delivered exactly once, a producer's events keep their order, GracefulClose returns only when no handler is running and nothing is invoked afterwards. A second harness explores GatherCandidates racing with Restart over the real task loop, gather goroutine and notifier: at most one nil candidate per cycle, exactly one for a completed cycle, none for a refused or cancelled one.",
+   text="Schedule exploration over the REAL handlerNotifier including the drainer goroutines it spawns (two producers, a handler that yields inside, all three callback streams, context bound 2): the handler never runs concurrently with itself, every event is delivered exactly once, a producer's events keep their order, GracefulClose returns only when no handler is running and nothing is invoked afterwards. A second harness explores GatherCandidates racing with Restart over the real task loop, gather goroutine and notifier: at most one nil candidate per cycle, exactly one for a completed cycle, none for a refused or cancelled one; a third harness issues Restart after GatherCandidates returned at any explored moment of the running cycle: afterwards the state is New (a superseded cycle cannot overwrite it) and a fresh cycle completes with exactly one more nil candidate.",
    note="Bounds: 3 events, context bound 2 (3 thorough); gather-vs-restart: context bound 1 (2), first 5 (7) non-preemptive switch points nondeterministic. Switches at synchronisation operations only (sound for data-race-free code). Outside: handlers that re-enter the API, close the agent or block forever; longer bursts. Counterexamples are replayed by re-executing the schedule on the real code's SSA.",
    ref="DESIGN.md §5 C11", tech="sched")
 
 CLAIMED["C01"] = dict(
-   text="Bounded two-agent model checking on the real code: a controlling and a controlled agent (bare Agent structs, real selectors, real stun.Build/Decode, real handleInbound and ContactCandidates) are joined by a harness network in which every emitted datagram stays in flight until the explorer delivers, drops or duplicates it. After an adversarial prefix of 3 (thorough 2 or 4, see bounds) explorer-chosen steps from {tick A, tick B, deliver, drop, duplicate/reorder in either direction} a fair loss-free suffix of 6 rounds runs. For every prefix and reachability matrix: the selection invariant holds on both sides at every step, Connected is reported exactly while a pair is selected, an unreachable (or one-way) path never yields Connected or a selection, and with a path reachable both ways both agents end Connected on mirror-image pairs.",
+   text="Bounded two-agent model checking on the real code: a controlling and a controlled agent (bare Agent structs, real selectors, real stun.Build/Decode, real handleInbound and ContactCandidates) are joined by a harness network in which every emitted datagram stays in flight until the explorer delivers, drops or duplicates it. After an adversarial prefix of 3 (thorough 2 or 4, see bounds) explorer-chosen steps from {tick A, tick B, deliver, drop, duplicate/reorder in either direction} a fair loss-free suffix of 6 rounds runs. For every prefix and reachability matrix: the selection invariant holds on both sides at every step, Connected is reported exactly while a pair is selected, an unreachable (or one-way) path never yields Connected or a selection, and with a path reachable both ways both agents end Connected on mirror-image pairs. Orderings beyond the prefix bound are covered one step at a time by lemmas from a symbolic agent state: a controlling agent nominates one pair at a time and USE-CANDIDATE only goes out on it; a controlled agent's deferred nomination stays armed until its pair is selected; a tick retransmits an outstanding nomination, nominates the best valid pair, and re-checks every pair within its retry budget.",
    note="Bounds: quick 1 candidate per side with a 3-step prefix; thorough 2 per side (4 pairs) with a 2-step prefix and 1 per side with a 4-step prefix; suffix 6 rounds ('eventually' = within the suffix); ticks call ContactCandidates directly (timer goroutine outside); transaction ids pairwise distinct; clock steps <= ~1 ms; integrity contract. Outside: srflx/NAT topologies, longer loss prefixes, Restart mid-session, real timers/sockets.",
    ref="DESIGN.md §5 C01")
 
